@@ -265,6 +265,59 @@ func c19Sequential(r *ev.Run) {
 		}
 	}
 	r.Sample(map[string]interface{}{"query": "SELECT *, rowid, a FROM t1", "compared_with": "DB.Select(t1, a,b,c,d,e,rowid,a)"})
+	// two result sets of one pool open at the same time, read alternately
+	{
+		want1, _ := SelectAll(native, "t1", "a", "b", "c")
+		want2, _ := SelectAll(native, "t2", "a", "b", "d")
+		for _, qs := range [][2]string{{"SELECT a, b, c FROM t1", "SELECT a, b, d FROM t2"}, {"SELECT a, b, c FROM t1", "SELECT a, b, c FROM t1"}} {
+			rows1, e1 := db.Query(qs[0])
+			rows2, e2 := db.Query(qs[1])
+			if e1 != nil || e2 != nil {
+				r.Violation("C19:seq:two-result-sets", fmt.Sprintf("two queries at once: %v / %v", e1, e2), nil)
+				continue
+			}
+			read := func(rows *sql.Rows) ([]interface{}, bool) {
+				if !rows.Next() {
+					return nil, false
+				}
+				vals := make([]interface{}, 3)
+				rows.Scan(&vals[0], &vals[1], &vals[2])
+				for i, v := range vals {
+					if b, ok := v.([]byte); ok {
+						vals[i] = append([]byte{}, b...)
+					}
+				}
+				return vals, true
+			}
+			var got1, got2 [][]interface{}
+			for more1, more2 := true, true; more1 || more2; {
+				if more1 {
+					var v []interface{}
+					if v, more1 = read(rows1); more1 {
+						got1 = append(got1, v)
+					}
+				}
+				if more2 {
+					var v []interface{}
+					if v, more2 = read(rows2); more2 {
+						got2 = append(got2, v)
+					}
+				}
+			}
+			err1, err2 := rows1.Err(), rows2.Err()
+			rows1.Close()
+			rows2.Close()
+			w2 := want2
+			if qs[1] == qs[0] {
+				w2 = want1
+			}
+			r.Eval(1)
+			r.Trans(2)
+			if err1 != nil || err2 != nil || !RowsEq(got1, want1, false) || !RowsEq(got2, w2, false) {
+				r.Violation("C19:seq:two-result-sets", fmt.Sprintf("two result sets read alternately (%s | %s): err=%v/%v rows %d/%d want %d/%d", qs[0], qs[1], err1, err2, len(got1), len(got2), len(want1), len(w2)), map[string]interface{}{"queries": qs})
+			}
+		}
+	}
 	// error paths
 	for _, q := range []string{"DELETE FROM t1", "CREATE TABLE x (a)", "SELECT a FROM nosuch", "SELECT", "garbage", "SELECT a FROM t1_bc", "INSERT INTO t1 VALUES (1)"} {
 		rows, err := db.Query(q)
